@@ -372,3 +372,15 @@ def scenario_jobs(pid, rec=None):
                 j["rec"] = list(rec)
             jobs.append(j)
     return jobs
+
+
+def add_spec_coverage(cov, pid, tier):
+    """run the exhaustive TLC configurations of the implementation-shaped specification that serve
+    this property and add their totals to the coverage record"""
+    import mc
+    spec_cov, st, tr = mc.run_for(pid, tier)
+    cov["exhaustive_spec"] = spec_cov
+    cov["trace_validation_states"] = cov.get("states", 0)
+    cov["states"] = cov.get("states", 0) + st
+    cov["transitions"] = cov.get("transitions", 0) + tr
+    return cov
